@@ -114,6 +114,10 @@ def run_script(drv, cmds, metas, spool_parent, keep_spool=False, mode='root', pr
         elif e['e'] == 'Spawn':
             m = re.search(r'^DURATION:([^\n]*)', e.get('vtodo', ''), re.M)
             e['durline'] = m.group(1) if m else ''
+            # what the executor is told to run, and as whom
+            vt = e.get('vtodo', '')
+            mu = re.search(r'^UID:([^\n]*)', vt, re.M); ms = re.search(r'^SUMMARY:([^\n]*)', vt, re.M); mi = re.search(r'^X-ECHS-SETUID:(\d+)$', vt, re.M)
+            e['vuid'] = mu.group(1) if mu else ''; e['vsummary'] = ms.group(1) if ms else ''; e['vsetuid'] = int(mi.group(1)) if mi else -1
             e.pop('vtodo', None); e.pop('argv', None)
         for kk in ('now',):
             if kk in e: e[kk] = int(e[kk])
